@@ -10,6 +10,22 @@ NOTE = ("Trusted: Coq 8.16.1 kernel; the hand-written Gallina model (tied to /re
         "No axioms: Print Assumptions of every property theorem is recorded in the evidence.")
 
 CLAIMED = {
+ "C01": ("No Coq model of CPython yet: the theorem file holds only totality of both models (partial). Decided on every run by loading every encoder output (gate matrix + random trees x 6 protocols x StrictUnicode) with CPython's own pickle._Unpickler (symbolic classes / persistent ids, py2 str kept distinct) and comparing structurally with the documented Python value computed independently; encoder model = implementation on the bytes. Two known findings (non-UTF-8 text emitted as unicode; protocol-0 PERSID with non-ASCII id).",
+         "executable Coq encoder model tied to the code + CPython itself as the reference (theorem pending)", "5 (C01)"),
+ "C02": ("No Coq model of CPython's picklers (by design) and no simulation theorem yet (partial). Decided on every run: Python objects over the documented types incl. every LONG1 length and DAG sharing, pickled by the C pickler, the pure-Python pickler and pickletools.optimize at protocols 0..5, decoded in 4 configs and compared structurally with CPython's own reading; decoder model = implementation. Known finding stale_list_view (shared non-empty list).",
+         "executable Coq decoder model tied to the code + CPython picklers/unpickler as the reference (theorem pending)", "5 (C02)"),
+ "C05": ("Corollary of C16 (typed results) and C03 (round trip), both pending: theorem file holds totality only (partial). Decided on every run by the fuzz invariant itself on the C04 input stream: every successful result re-encoded at 6 protocols and decoded again, on the implementation and on both models.",
+         "executable Coq models of decoder and encoder composed, tied to the code by differential runs (theorem pending)", "5 (C05)"),
+ "C06": ("Simulation theorem GoVM ~ PyVM not yet proved, PyVM not yet modelled in Coq (partial). Decided on every run against CPython's pickle._Unpickler read per decoder mode: typed-grammar programs with every opcode variant, exhaustive short programs, a sharing matrix (second reference by memo in every key width or DUP, taken while empty / half / full, every fill opcode, sizes 0..20), x 4 configs; decoder model = implementation. Known finding stale_list_view.",
+         "executable Coq decoder model tied to the code + CPython unpickler as the reference (simulation theorem pending)", "5 (C06)"),
+ "C09": ("Restriction of C06 to dict opcodes + C07/C08 theorems about the Dict; the composition is not yet a theorem (partial). Decided on every run: dict programs over a colliding key alphabet in every opcode form, nested and re-reached through the memo, x 4 configs, against the dict CPython builds (PyDict: entry count, key classes, final value per class; default: Go key identity from CPython's assignment trace, error iff a key cannot be a Go map key).",
+         "Coq Dict theorems (C07/C08) + executable decoder model + CPython as the reference (composition pending)", "5 (C09)"),
+ "C14": ("L1 (bufio-level) reader model and the refinement theorem are not yet written (partial; totality only). Decided on every run metamorphically on the implementation: every input x schedules {1-byte, every single split point, zero-length reads, data+EOF, 4095/4096/4097 chunks, random multi-way splits} must give the same (value, error) sequence as a single Read; the stream-level decoder model = implementation on the single-Read run.",
+         "metamorphic chunking sweep on the implementation + stream-level decoder model (L1 refinement theorem pending)", "5 (C14)"),
+ "C18": ("Hook-log theorems not yet stated (partial; totality only). Decided on every run: Decode - PersistentLoad call log compared with CPython's persistent_load sequence and with the model under hook behaviours keep / replace / fail / partial; Encode - number of PersistentRef consultations and hits compared with the traversal for pointers in every position (incl. **T chains), output decoded again with the inverse hook.",
+         "executable Coq models with the hooks as parameters + call-log comparison against CPython and the traversal (theorems pending)", "5 (C18)"),
+ "C20": ("PARTIAL by nature. Theorem C20_no_mutable_package_state over Gen/Globals.v, regenerated from the source on every run: every package-level variable is an errors.New value never assigned / address-taken. Interleavings are not modelled; the dynamic part runs the harness under the Go race detector (N up to 64 goroutines, own Encoders/Decoders or one shared decoded value) and compares results with the sequential ones.",
+         "proof over facts regenerated from the source (no mutable package state) + race-detector runs", "5 (C20)"),
  "C11": ("Stream theorem not yet proved (partial; Props/C11.v holds only totality). Decided on every run by: streams of 1..8 self-contained pickles (mixed protocols, hand-assembled programs leaving operands / marks / protocol number / buffer contents behind, pickles failing at their last byte, all ordered pairs of those) x 4 configs, each call compared with the same pickle decoded alone and with the decoder model threaded through the stream; earlier results re-dumped after the last call.",
          "executable decoder model threaded through streams + metamorphic comparison with stand-alone decoding (theorem pending)", "5 (C11)"),
  "C16": ("Typing invariant not yet proved (partial; Props/C16.v holds only totality). Decided on every run by walking every successful result and every Ref handed to PersistentLoad against the mode's type whitelist, over the C04 stream + MARK under every consuming opcode in every operand position + exhaustive opcode x small-stack sweep, x 4 configs x 4 PersistentLoad behaviours; full observations compared with the decoder model.",
